@@ -2282,6 +2282,78 @@ func runCold(w *tr.W, rng *rand.Rand, i int) {
 	out.end(s)
 }
 
+// bursts: thousands of tiny races of the one kind the property names - a stored value and 2-4
+// callers reading it with remove-after-get at the same instant.  The callers are parked workers
+// spinning on a round counter, so they start within nanoseconds of each other; a round is ONE
+// compact event (the Set and the replies, hits first - the only order that can explain them).
+func runBursts(w *tr.W, rng *rand.Rand, i, rounds int) {
+	threads := 2 + rng.Intn(3)
+	nk := 2
+	size := 1 + rng.Intn(3)
+	now := 1 + rng.Intn(1000)
+	atomic.StoreInt64(&clock, int64(now))
+	s := newSut(cache.NewTTLMemCache(size, 0), i, false)
+	w.Emit(tr.E{"ev": "reset", "size": size, "dttl": 0, "nk": nk, "now": now, "threads": 1,
+		"impl": "mem", "src": "burst", "lazy": false})
+	var round, done, quit int32
+	var g act
+	res := make([]tr.E, threads)
+	for t := 0; t < threads; t++ {
+		go func(t int) {
+			seen := int32(0)
+			for {
+				for atomic.LoadInt32(&round) == seen {
+					if atomic.LoadInt32(&quit) != 0 {
+						return
+					}
+				}
+				seen++
+				r, _ := s.do(g)
+				res[t] = r.(tr.E)
+				atomic.AddInt32(&done, 1)
+			}
+		}(t)
+	}
+	nv, stuck := 0, 0
+	for rd := 0; rd < rounds && stuck == 0; rd++ {
+		k := 1 + rd%nk
+		nv++
+		a := act{Op: "set", K: k, V: nv}
+		ra, _ := s.call(a)
+		if s.dead {
+			w.Emit(tr.E{"ev": "call", "a": a.rec(), "r": ra})
+			break
+		}
+		g = act{Op: "get", K: k, Rm: true}
+		atomic.StoreInt32(&done, 0)
+		atomic.AddInt32(&round, 1)
+		deadline := time.Now().Add(watchdogPeriod())
+		for spins := 0; atomic.LoadInt32(&done) < int32(threads); spins++ {
+			if spins%4096 == 4095 && time.Now().After(deadline) {
+				stuck = threads - int(atomic.LoadInt32(&done))
+				s.dead = true
+				noteStuck()
+				break
+			}
+		}
+		if stuck > 0 {
+			w.Emit(tr.E{"ev": "stuck", "n": stuck})
+			break
+		}
+		rs := make([]tr.E, 0, threads)
+		for _, hitsFirst := range []bool{true, false} {
+			for _, r := range res {
+				if (r["c"] == "hit") == hitsFirst {
+					rs = append(rs, r)
+				}
+			}
+		}
+		w.Emit(tr.E{"ev": "burst", "a": a.rec(), "ra": ra, "g": g.rec(), "rs": rs})
+	}
+	atomic.StoreInt32(&quit, 1)
+	(&sink{w: w}).end(s)
+}
+
 // racing callers on ONE key of the redis-backed cache.  Every command the cache sends to the fake
 // server is a scheduling point: the caller parks at the gate and the driver serves the parked
 // callers one command at a time in an order drawn from the seeded generator, so exactly one
@@ -2434,6 +2506,7 @@ func main() {
 	nboth := flag.Int("nboth", 150, "random region histories")
 	nconc := flag.Int("nconc", 60, "concurrent histories")
 	nrds := flag.Int("nrds", 60, "region histories on the redis-backed cache alone, failures injected")
+	nburst := flag.Int("nburst", 1500, "remove-after-get bursts on the in-memory cache (one event each)")
 	ncold := flag.Int("ncold", 100, "cold-start races on a fresh in-memory cache")
 	nrconc := flag.Int("nrconc", 60, "concurrent histories on the redis-backed cache (scheduled commands)")
 	maxops := flag.Int("maxops", 60, "max ops per history")
@@ -2486,6 +2559,9 @@ func main() {
 	}
 	for i := 0; i < *ncold && !giveUp(); i++ {
 		runCold(cw, rng, i)
+	}
+	for i := 0; i*50 < *nburst && !giveUp(); i++ {
+		runBursts(cw, rng, i, 50)
 	}
 	cw.Close()
 	fmt.Printf("mem_events=%d both_events=%d conc_events=%d\n", w.N(), bw.N(), cw.N())
